@@ -190,7 +190,8 @@ def move_rule(ctx: Ctx):
         c = consumed[0].call
         empty_atom = None
         for a, pol in p.facts():
-            if isinstance(a, ast.Call) and getattr(a.func, "attr", "") == "is_empty" and a.args and flow.same(a.args[0], c):
+            # the tested vehicle is the consumed one or derives from it by further functional updates (same energy)
+            if isinstance(a, ast.Call) and getattr(a.func, "attr", "") == "is_empty" and a.args and ast.dump(c) in states.subtree_dumps(a.args[0]):
                 empty_atom = pol
         k = flow.classify_result(p.value)
         commits = [e for e in p.events if e.name == "modify_vehicle" and not e.deferred]
